@@ -357,3 +357,63 @@ fn encode_loop2() {
     }
     kani::cover!(two && n0 == n1 && (n0 == 0 || b0 == b1), "two frames with equal content");
 }
+
+static FRAME_OPTS: [&[u8]; 3] = [b"", b"a", b"b"];
+fn static_frame() -> (Bytes, usize) {
+    let i: usize = kani::any();
+    kani::assume(i < 3);
+    (Bytes::from_static(FRAME_OPTS[i]), i)
+}
+
+/// BOUNDED (cheap twin for the quick tier): 1..=3 frames, each one of the static bodies "", "a", "b" (so equal
+/// and different contents, empty frames in every position); destination pre-sized so that nothing reallocates.
+#[kani::proof]
+#[kani::unwind(11)]
+fn encode_loop3() {
+    let nframes: usize = kani::any();
+    kani::assume(nframes >= 1 && nframes <= 3);
+    let (f0, i0) = static_frame();
+    let (f1, i1) = static_frame();
+    let (f2, i2) = static_frame();
+    let mut m = ZmqMessage::from(f0);
+    if nframes >= 2 {
+        m.push_back(f1);
+    }
+    if nframes >= 3 {
+        m.push_back(f2);
+    }
+    let mut dst = BytesMut::with_capacity(64);
+    let mut codec = ZmqCodec::new();
+    let r = codec.encode(Message::Message(m), &mut dst);
+    let ok = r.is_ok();
+    std::mem::forget(r);
+    assert!(ok, "encoding a message must not fail");
+    let idx = [i0, i1, i2];
+    let mut exp = [0u8; 9];
+    let mut k = 0;
+    let mut i = 0;
+    while i < 3 {
+        if i < nframes {
+            let body = FRAME_OPTS[idx[i]];
+            exp[k] = if i + 1 < nframes { 1 } else { 0 };
+            exp[k + 1] = body.len() as u8;
+            k += 2;
+            if body.len() == 1 {
+                exp[k] = body[0];
+                k += 1;
+            }
+        }
+        i += 1;
+    }
+    assert!(dst.len() == k, "wire image has extra or missing octets");
+    let out: &[u8] = &dst[..];
+    let mut q = 0;
+    while q < 9 {
+        if q < k {
+            assert!(out[q] == exp[q], "wire image differs from the RFC 23 frame sequence");
+        }
+        q += 1;
+    }
+    kani::cover!(nframes == 3 && i0 == i2 && i0 != i1, "first and last frame with equal content");
+    std::mem::forget(dst);
+}
